@@ -170,7 +170,7 @@ def strat_thermo():
     return st.builds(lambda i, u1, u2, unit, order, fresh: {"adsorbate": tab[i][0], "u1": min(u1, u2), "u2": max(u1, u2),
                                                             "unit": unit, "order": order, "fresh": fresh},
                      st.integers(0, len(tab) - 1), st.floats(0, 1), st.floats(0, 1), st.sampled_from(list(ru.PRESSURE_PA)),
-                     st.permutations(list(range(12))).map(list), st.booleans())
+                     st.permutations(list(range(15))).map(list), st.booleans())
 
 
 def check_thermo(desc, ctx):
@@ -202,7 +202,18 @@ def check_thermo(desc, ctx):
         ("p_critical", lambda T: ads.p_critical(), lambda T: _P("PCRIT", fluid)),
         ("t_triple", lambda T: ads.t_triple(), lambda T: ru.t_triple(fluid)),
         ("t_critical", lambda T: ads.t_critical(), lambda T: ru.t_crit(fluid)),
+        # requests the backend must refuse (20 K above the critical point): whatever they answer (user value or
+        # calculation error), the calls that follow must not be affected
+        ("refused_enthalpy", lambda T: _refused(ads.enthalpy_vaporisation, temp=entry[3] + 20.0), None),
+        ("refused_saturation_pressure", lambda T: _refused(ads.saturation_pressure, entry[3] + 20.0), None),
+        ("refused_liquid_density", lambda T: _refused(ads.liquid_density, entry[3] + 20.0), None),
     ]
+
+    def _refused(fn, *a, **k):
+        try:
+            return fn(*a, **k)
+        except CalculationError:
+            return None
 
     def _st(T):
         try:
@@ -210,7 +221,7 @@ def check_thermo(desc, ctx):
         except CalculationError:
             return None
 
-    seq = [(calls[j], T) for T in (T1, T1, T2) for j in desc.get("order", list(range(7)))]
+    seq = [(calls[j], T) for T in (T1, T1, T2) for j in desc.get("order", list(range(7))) if j < len(calls)]
     prev = None
     for (name, lib, ref), T in seq:
         got = lib(T)
